@@ -23,6 +23,7 @@ type OblResult struct {
 	File   string
 	Output string
 	Points int
+	Tags   []string
 }
 
 type FuncResult struct {
@@ -129,7 +130,7 @@ func (g *Gen) verifyFunc(name string, opts VerifyOpts) *FuncResult {
 	res := map[*Oblig]*OblResult{}
 	var rmu sync.Mutex
 	mk := func(o *Oblig) *OblResult {
-		r := &OblResult{Func: name, ID: o.ID, Kind: o.Kind, Safety: o.Safety, Cover: o.Cover, Src: o.Src, Desc: o.Desc, Points: o.N}
+		r := &OblResult{Func: name, ID: o.ID, Kind: o.Kind, Safety: o.Safety, Cover: o.Cover, Src: o.Src, Desc: o.Desc, Points: o.N, Tags: o.Tags}
 		rmu.Lock()
 		res[o] = r
 		rmu.Unlock()
